@@ -110,6 +110,21 @@ CHECKS = {
         technique="TLA+ history spec + TLC exhaustive enumeration, behaviour replay into real code",
         design_ref="DESIGN.md section 5 C19",
     ),
+    "C01": dict(
+        level="model_checking",
+        text=("BoxLayouts.tla holds the field layout of 134 box shapes (from ISO/IEC 14496-12/-15/-30, 23001-7, ETSI TS 102 366, not from the Go code) in a "
+              "layout DSL with an interpreter that serialises an instance to bytes, the canonical re-encoding and a bit-level don't-care mask. TLC "
+              "enumerates every instance (version x every subset of the defined flags x counts x header form x nesting, one field at a time at "
+              "boundary values, distinct fillers elsewhere); each goes through DecodeBox/DecodeBoxSR/DecodeFile/DecodeFileSR and Encode/EncodeSW of "
+              "the real code: masked byte equality, re-decode, second encode identical. Corpus and materialised files and their boxes run the same "
+              "pipeline under the committed dontcare.json (cross-checked against the spec's masks). All recorded pipelines are validated against "
+              "BoxRoundTrip.tla, whose actions are enabled only by observations the property allows."),
+        note=("Trusted: TLC, the layouts (reviewed against the standards; every layout must be accepted by a decoder or the run reports drift), "
+              "the Go driver, FNV digests in traces. Structure equality is judged on the Info projection plus encoded bytes. Box types without a "
+              "layout are covered only by corpus objects. Known findings: depth, samplerate fraction, data box indicators, trun data_offset 0."),
+        technique="TLA+ layout spec: TLC enumerates box instances, replayed through the real decoders/encoders; TLC trace validation of the recorded round trips",
+        design_ref="DESIGN.md section 5 C01",
+    ),
     "C02": dict(
         level="model_checking",
         text=("BoxSize.tla is a history machine over {Size, Info, Encode, EncodeSW} x trun optimisation on an abstract object; TLC "
